@@ -220,7 +220,9 @@ impl Check for C07Check {
             return serde_json::to_value(Scn::Sweep { lo, hi: lo + (1 << 16), step: 1, context: true }).unwrap();
         }
         // stream scenario
-        let n_elems = match r.below(10) {
+        let n_elems = match if index % 61 == 7 { 10 } else { r.below(10) } {
+            // scale: streams beyond 64 KiB / 65535 entries
+            10 => *r.pick(&[5_000usize, 20_000, 70_000]),
             0 => 0,
             1..=4 => r.usize(1, 12),
             5..=8 => r.usize(12, 80),
@@ -423,6 +425,9 @@ impl Check for C07Check {
                         ),
                         narrowed: Some(mk_scn(Cuts::Explicit(vec![vec![]]))),
                     });
+                }
+                if stream.len() > 65536 {
+                    stats.probe("stream_longer_than_64KiB");
                 }
                 if rc == stream.len() {
                     stats.probe("stream_fully_valid");
